@@ -347,7 +347,7 @@ def instances(tier):
         out.append({'func': 'h_mean_weighted', 'params': {'n': n, 'r': r}})
         out.append({'func': 'h_get_and_grad', 'params': {'n': n, 'r': r}, 'opts': {'raw': False}})
         out.append({'func': 'h_accuracy_on_data', 'params': {'n': n, 'r': r, 'm': 3}, 'opts': {'raw': False}})
-    for n, r in [([2, 2], 1), ([2, 1], 2), ([1, 2, 1], 1)] + ([] if quick else [([2, 2], 2), ([2, 2, 2], 1)]):
+    for n, r in [([2, 2], 1), ([2, 1], 2), ([1, 2, 1], 1)] + ([] if quick else [([2, 1, 2], 1)]):
         out.append({'func': 'h_norm', 'params': {'n': n, 'r': r}, 'opts': {'raw': False}})
     out.append({'func': 'h_outer', 'params': {'n1': [2, 2], 'r1': 2, 'n2': [2], 'r2': 1}})
     out.append({'func': 'h_outer', 'params': {'n1': [2], 'r1': 1, 'n2': [1, 2], 'r2': 2}})
